@@ -168,3 +168,73 @@ func (x *Int64) CompareAndSwap(o, n int64) bool {
 	vsched.AtomicPoint(unsafe.Pointer(x), true)
 	return x.v.CompareAndSwap(o, n)
 }
+
+type Uint32 struct{ v atomic.Uint32 }
+
+func (x *Uint32) Load() uint32 {
+	vsched.AtomicPoint(unsafe.Pointer(x), false)
+	v := x.v.Load()
+	vsched.AfterAtomic(unsafe.Pointer(x))
+	return v
+}
+func (x *Uint32) Store(v uint32) {
+	vsched.AtomicPoint(unsafe.Pointer(x), true)
+	x.v.Store(v)
+}
+func (x *Uint32) Add(d uint32) uint32 {
+	vsched.AtomicPoint(unsafe.Pointer(x), true)
+	return x.v.Add(d)
+}
+func (x *Uint32) CompareAndSwap(o, n uint32) bool {
+	vsched.AtomicPoint(unsafe.Pointer(x), true)
+	v := x.v.CompareAndSwap(o, n)
+	vsched.AfterAtomic(unsafe.Pointer(x))
+	return v
+}
+
+type Uint64 struct{ v atomic.Uint64 }
+
+func (x *Uint64) Load() uint64 {
+	vsched.AtomicPoint(unsafe.Pointer(x), false)
+	v := x.v.Load()
+	vsched.AfterAtomic(unsafe.Pointer(x))
+	return v
+}
+func (x *Uint64) Store(v uint64) {
+	vsched.AtomicPoint(unsafe.Pointer(x), true)
+	x.v.Store(v)
+}
+func (x *Uint64) Add(d uint64) uint64 {
+	vsched.AtomicPoint(unsafe.Pointer(x), true)
+	return x.v.Add(d)
+}
+func (x *Uint64) CompareAndSwap(o, n uint64) bool {
+	vsched.AtomicPoint(unsafe.Pointer(x), true)
+	v := x.v.CompareAndSwap(o, n)
+	vsched.AfterAtomic(unsafe.Pointer(x))
+	return v
+}
+
+// Pointer is atomic.Pointer[T].
+type Pointer[T any] struct{ v atomic.Pointer[T] }
+
+func (x *Pointer[T]) Load() *T {
+	vsched.AtomicPoint(unsafe.Pointer(x), false)
+	v := x.v.Load()
+	vsched.AfterAtomic(unsafe.Pointer(x))
+	return v
+}
+func (x *Pointer[T]) Store(v *T) {
+	vsched.AtomicPoint(unsafe.Pointer(x), true)
+	x.v.Store(v)
+}
+func (x *Pointer[T]) Swap(v *T) *T {
+	vsched.AtomicPoint(unsafe.Pointer(x), true)
+	return x.v.Swap(v)
+}
+func (x *Pointer[T]) CompareAndSwap(o, n *T) bool {
+	vsched.AtomicPoint(unsafe.Pointer(x), true)
+	v := x.v.CompareAndSwap(o, n)
+	vsched.AfterAtomic(unsafe.Pointer(x))
+	return v
+}
